@@ -70,7 +70,9 @@ CLAIMED.update({
 })
 CLAIMED["C15"]["text"]=("Deductive proof, for all inputs, of GoVersion.GreaterOrEqual (numeric lexicographic compare, zero value = newest), ParseGoVersion ('' / 'go' => zero value; "
    "'M.N' / 'goM.N' decimal => {M,N}; exactly the valid strings are accepted), SetGoVersion, and of the hand-over of the target version to the rule engine "
-   "(the per-file RunContext carries ctx.GoVersion field by field). The per-rule version gates of the precompiled rules are not yet checked.")
+   "(the per-file RunContext carries ctx.GoVersion field by field); octalLiteral suggests the 0o syntax only from go1.13 on; and, on the precompiled rule data, every rule whose "
+   "report or suggestion names a standard-library function or method that first appeared after go1.13 (read from GOROOT/api) fires only under a top-level GoVersion().GreaterEqThan filter of at least that version "
+   "(generator-decided obligations). What the rule engine does with the version is assumed.")
 
 CLAIMED.update({
  "C01": dict(
@@ -169,6 +171,30 @@ CLAIMED.update({
         "names a standard package - the selected member is spelled out, which is the condition under which the rule engine resolves the qualifier through type information (assumed behaviour "
         "of the dependency). Ten spelling-based recognisers were genuine defects and were repaired (fix: commits, see known_findings.txt); three of them were also crash sites under C01.",
    design="§7 C20", technique="contract-based deductive verification (preconditions carried along call chains, gate clauses, SMT) + generator-decided call-graph and rule-pattern obligations"),
+})
+
+CLAIMED.update({
+ "C12": dict(
+   text="Deductive proof that the hand-written checkers make their definite claims only under conditions that imply them: badCond's 'always false' is issued only for `x < a && x > b` with one "
+        "side-effect-free operand x written twice and constants a, b such that no value lies below a and above b (the quantified claim is part of lessAndGreater's postcondition and is carried "
+        "to the Warn call); nilValReturn's 'always nil' only when the returned expression is the side-effect-free operand compared with the predeclared nil in the condition and the return is "
+        "the only statement of the branch; caseOrder's 'must go before' only when the case type implements the interface of a case listed earlier (loop invariant over the list of seen cases) "
+        "and never for case nil; dupSubExpr only for one side-effect-free expression written twice. Rule data: sloppyLen's three claims and offBy1's 'always panics' are proved as SMT lemmas "
+        "about the builtin len (non-negative; index in range iff 0 <= i < len), and the rules must restrict the callee to the builtin object, the operand to a pure expression and to slice types "
+        "(generator-decided obligations on the precompiled rule data). The semantic bridge (syntactically equal side-effect-free expressions have equal values; constants evaluate to their "
+        "values) is theory go-semantics, assumed. Three defects were found and repaired (badCond purity, caseOrder nil, nilValReturn shadowed nil, sloppyLen/offBy1 user-defined len). dupArg and "
+        "the remaining rule-based claims are not covered.",
+   design="§7 C12", technique="contract-based deductive verification (quantified claims as postconditions / call-site clauses; SMT lemmas over rule data)"),
+ "C10": dict(
+   text="boolExprSimplify: every row of its rewrite tables is proved to be an equivalence over the integers at the point where it is applied (negated comparisons, a > b || a == b, the eight "
+        "range foldings, the eight +1/-1 shifts handed to `replace`, and that `replace` applies exactly the row it was given), operands are side-effect free and written identically, literal "
+        "bounds are read in the base their spelling announces, and none of the integer-only rewrites is applied when the float guard is set; the guard is computed for the very expression "
+        "that is simplified next and inspects both operands of every binary sub-expression. Rule data (12 groups that promise an equivalent rewrite): per pattern, an SMT lemma that pattern "
+        "and rewrite denote the same value under the stated semantics of strings/bytes Index/Contains/Compare/Join/len and time.Time.Unix*, or a listed definitional identity (Go specification, "
+        "documented wrapper definitions); operands are evaluated as often and in the same order unless required pure/constant; type filters that the identity needs (exact string, slice). "
+        "Two rewrites are genuinely wrong and recorded as known findings (timeExprSimplify: t.Unix()/1000 is not t.UnixMilli()), one was repaired (stringConcatSimplify operand order), two earlier "
+        "(octal literal bounds, +1 shift on floats). NOT covered: underef, unlambda, typeUnparen, newDeref/ZeroValueOf, the statement-level strings.Cut rewrites, integer overflow.",
+   design="§7 C10", technique="contract-based deductive verification (quantified equivalence clauses at rewrite sites, closures, ghost scan records; SMT rewrite lemmas over rule data)"),
 })
 
 NA_REASON_PENDING = "check not built yet in this round (planned, DESIGN §7); not claimed until its obligations discharge"
